@@ -175,7 +175,7 @@ class DefaultFormulaParser(FormulaParser):
                             context.pop()
                     if context:
                         continue
-                    if token.token == "~":  # noqa: S105
+                    if token.kind is Token.Kind.OPERATOR and token.token == "~":  # noqa: S105
                         return index
                 return -1
 
